@@ -313,7 +313,7 @@ def op_clone(ctx, rule="C12.op-clone"):
     ctx.require(news, "GBS.compile no longer creates the merged MeasureFock")
     reads = {n.attr for n in walk_no_nested(f.node) if isinstance(n, ast.Attribute)}
     for a in ("select", "dark_counts"):
-        ok = a in reads or any(k.arg == a for c in news for k in c.keywords)
+        ok = a in reads or any(ctx.tree.arg_of(c, a) is not None for c in news)
         ctx.ob(rule, f.site, ok, "" if ok else f"the merged MeasureFock() is created without looking at `{a}` of the "
                "measurements it replaces: post-selection / dark counts are dropped by compilation", role=f"clone:MeasureFock:{a}",
                line=news[0].lineno)
